@@ -479,6 +479,97 @@ def check_gentag(ck, mod, ks, label, rulemap):
     return n + 1
 
 
+def injective_in(words, inbytes):
+    """is the list of words (terms) an injective function of the symbolic input bytes, everything else held fixed?
+    -> (True, None) proven; (False, witness text) refuted with two concrete inputs; (None, why) not decided.
+    Linear terms (XOR of input bits and of terms free of input bits): rank over GF(2).  Otherwise evaluation of the terms on a
+    structured family of input pairs (a collision found is a genuine one; none found decides nothing)."""
+    vars_ = [next(iter(b))[1:] for byte in inbytes for b in byte]          # (sym, i) of every input bit
+    vset = set(vars_)
+    if not vars_:
+        return True, None
+    rows = []
+    linear = True
+    for w in words:
+        for bit in w:
+            if bit is gf2.TOP:
+                return None, "a bit of the absorbed word is not representable"
+            m = 0
+            for a in bit:
+                if a[0] == "v" and (a[1], a[2]) in vset:
+                    m |= 1 << vars_.index((a[1], a[2]))
+                elif a[0] in ("&", "|") and gf2.support(frozenset([a])) & vset:
+                    linear = False
+            if m:
+                rows.append(m)
+    if linear:
+        rank = 0
+        rows = list(rows)
+        for col in range(len(vars_)):
+            piv = None
+            for i_ in range(rank, len(rows)):
+                if rows[i_] >> col & 1:
+                    piv = i_
+                    break
+            if piv is None:
+                return False, "input bit %d of byte %d never reaches the state on its own (rank %d of %d): two inputs that differ there are absorbed alike" % (col % 8, col // 8, rank, len(vars_))
+            rows[rank], rows[piv] = rows[piv], rows[rank]
+            for i_ in range(len(rows)):
+                if i_ != rank and rows[i_] >> col & 1:
+                    rows[i_] ^= rows[rank]
+            rank += 1
+        return True, None
+    nb = len(inbytes)
+
+    def val(assign_bytes):
+        asg = {}
+        for k_, byte in enumerate(inbytes):
+            for j_, b in enumerate(byte):
+                v_ = next(iter(b))
+                asg[(v_[1], v_[2])] = (assign_bytes[k_] >> j_) & 1
+        out = []
+        memo = {}
+        for w in words:
+            for bit in w:
+                out.append(gf2.evaluate(bit, asg, memo))
+        return tuple(out)
+    bases = [[0] * nb, [0xFF] * nb, [0x80] * nb, [0x7F] * nb]
+    for k_ in range(nb):
+        for v_ in (0x80, 0xFF, 0x01):
+            b_ = [0] * nb
+            b_[k_] = v_
+            bases.append(b_)
+    for base in bases:
+        v0 = val(base)
+        if None in v0:
+            return None, "the absorbed word cannot be evaluated"
+        for k_ in range(nb):
+            for j_ in range(8):
+                other = list(base)
+                other[k_] ^= 1 << j_
+                if val(other) == v0:
+                    return False, "data bytes %s and %s are absorbed alike" % (" ".join("%02x" % x_ for x_ in base), " ".join("%02x" % x_ for x_ in other))
+    return None, "the absorbed word is not a linear function of the data and no collision was found among the inputs tried"
+
+
+
+def absorb_injective_rule(ck, mod, label, rule):
+    """premise of 'modified associated data (SIV: or plaintext) is rejected': the shared absorb function leaves a state that is an injective
+    function of the bytes of every segment.  Decided where the absorb function has a recognised shape (per path class) and for every
+    size up to 24 as straight paths; a shape that is not recognised is noted, not failed (the conformance checks C02/C09 own that function)"""
+    n = 0
+    for ks in ("128", "192", "256"):
+        for fn_, kw in ((check_absorb_small, {"maxlen": 24}), (check_absorb, {})):
+            snap = ck.snapshot()
+            try:
+                n += fn_(ck, mod, ks, label, {"INJ": rule}, **kw)
+            except Broken as e:
+                ck.rollback(snap)
+                ck.note("injectivity of tinyjambu_absorb_%s not decided by %s: %s" % (ks, fn_.__name__, str(e)[:160]))
+    return n
+
+
+
 def check_absorb(ck, mod, ks, label, rulemap):
     klen = int(ks)
     f = mod.fn("tinyjambu_absorb_%s" % ks)
@@ -602,7 +693,7 @@ def check_absorb_small(ck, mod, ks, label, rulemap, maxlen=100):
     DATA = ("arg", f.param_index("data"))
     st = ("arg", 0)
     D = gf2.wzext(gf2.sym_word(("argw", di), 8), 32)
-    bad = badr = None
+    bad = badr = badinj = injund = None
     npaths = 0
     for L in range(maxlen + 1):
         ex = irx.Exec(f, mode.Handler(klen), mode.havoc_state(klen // 32), word_args=[di], auto=True, unrotate=True, split_max=32, arg_consts={si: L})
@@ -628,6 +719,17 @@ def check_absorb_small(ck, mod, ks, label, rulemap, maxlen=100):
                 final = mode.state_obj_words(ex, p, st, 4)
                 if why is None and not mode.words_eq(final, S):
                     why = "state after absorbing: %s" % mode.first_diff(final, S)
+                if "INJ" in rulemap and badinj is None and L <= 24:
+                    # what each word leaves in the state beyond the permutation's output: the input of the next permutation (less the domain) or the final state
+                    absorbed = []
+                    for k_, e in enumerate(P):
+                        nxt = [list(w) for w in P[k_ + 1][3]] if k_ + 1 < len(P) else final
+                        absorbed += [gf2.wxor(list(a_), list(q_)) for a_, q_ in zip(nxt, mode.Pw(e[1]))]
+                    inj, why_ = injective_in(absorbed, [mode.inbyte(DATA, j) for j in range(L)])
+                    if inj is None:
+                        injund = injund or (L, why_)
+                    elif not inj:
+                        badinj = (L, why_)
             ins = {k_ for (o_, k_) in mode.ins_of(p) if o_ == DATA}
             if badr is None and not ins <= set(range(L)):
                 badr = (L, "reads data offsets %s with a size of %d" % (sorted(ins - set(range(L)))[:4], L))
@@ -635,6 +737,11 @@ def check_absorb_small(ck, mod, ks, label, rulemap, maxlen=100):
                 bad = (L, why)
     c.ob(bad is None, "SMALL", "absorb-whole(size 0..%d)" % maxlen, "for every size 0..%d (%d straight paths): one permutation per 4-byte word with the domain in word 1, the word xored into word 3, "
          "the length of a partial last word injected into word 1" % (maxlen, npaths), "with size = %s: %s" % (bad[0] if bad else "?", bad[1] if bad else ""))
+    if "INJ" in rulemap:
+        if badinj is None and injund is not None:
+            raise Broken("%s: with size %d: %s: injectivity of the absorption is not decided by the small-length rule" % (f.name, injund[0], injund[1]))
+        c.ob(badinj is None, "INJ", "absorb-injective(size 0..24)", "for every size 0..24 the state after absorbing is an injective function of the data bytes (rank of the linear map they enter by)",
+             "with size = %s: %s - a modified input authenticates under the same tag" % (badinj[0] if badinj else "?", badinj[1] if badinj else ""))
     c.ob(badr is None, "SMALLMEM", "absorb-reads(size 0..%d)" % maxlen, "for every size 0..%d only data[0, size) is read" % maxlen, "with size = %s: %s" % (badr[0] if badr else "?", badr[1] if badr else ""))
     return 2
 
@@ -748,6 +855,12 @@ def _check_absorb_loop(c, f, ex, ps, hdr, klen, di, ri):
         ins = {k for (o, k) in mode.ins_of(p) if o == cur}
         c.ob(ins <= set(range(r)), "INRANGE", "absorb-%s-reads" % name, "reads exactly bytes [0,%d) at the cursor" % r, "reads offsets %s with only %d byte(s) remaining" % (sorted(ins), r))
         c.ob(not problems(p), "MODE", "absorb-%s-clean" % name, "no unknown access", "unexpected accesses: %s" % problems(p)[:2])
+        if "INJ" in c.rulemap:
+            inj, why_ = injective_in([gf2.wxor(list(w_), list(q_)) for w_, q_ in zip(final, Q)], inb)
+            if inj is None:
+                raise Broken("%s: %s: whether the %s absorbs its bytes injectively is not decided" % (f.name, why_, name))
+            c.ob(inj, "INJ", "absorb-%s-injective" % name, "the state after the %s is an injective function of its %d data byte(s): two different inputs never leave the same state behind" % (name, r),
+                 "the %s does not absorb its bytes injectively: %s - a modified input authenticates under the same tag" % (name, why_))
         n += 6
     if seen != {0, 1, 2, 3, 4}:
         raise Broken("%s: the path classes found (%s) are not the residues 0..3 plus the full block: unrecognised shape" % (f.name, sorted(seen)))
